@@ -42,10 +42,10 @@ FLAG_NAMES = ["FITERRSMALL", "FITERR", "FIXED2PSF", "FIXEDCIRCULAR",
 MUTANTS = [
     ("island row negative as soon as one pixel is negative",
      "AegeanTools/source_finder.py",
-     "                if source.peak_flux < 0:\n"
-     "                    source.peak_flux = np.nanmin(kappa_sigma)",
-     "                if np.nanmin(kappa_sigma) < 0:\n"
-     "                    source.peak_flux = np.nanmin(kappa_sigma)",
+     "            if source.peak_flux < 0:\n"
+     "                source.peak_flux = np.nanmin(kappa_sigma)",
+     "            if np.nanmin(kappa_sigma) < 0:\n"
+     "                source.peak_flux = np.nanmin(kappa_sigma)",
      "C03-R18"),
     ("row bound of the refit box clamped with the column count",
      "AegeanTools/source_finder.py",
